@@ -285,13 +285,13 @@ func deliver(n *simnode.Node, blk *types.Block) (bool, string) {
 const tyEither = int32(-1)
 
 type expRcpt struct {
-	ty      int32 // expected type or tyEither
-	kvs     []expKV
-	reads   []ReadRec
-	hasLog  bool
-	why     string // failure kind of the unit ("" = success)
-	ghostS  []string
-	ghostL  []string
+	ty                           int32 // expected type or tyEither
+	kvs                          []expKV
+	reads                        []ReadRec
+	hasLog                       bool
+	why                          string // failure kind of the unit ("" = success)
+	ghostS                       []string
+	ghostL                       []string
 	ghostReads, outside, deposit int
 }
 
